@@ -11,6 +11,7 @@ CONSTANTS Cand,            \* candidate instance OIDs
           RootCand,        \* candidate root OIDs
           MaxRoots, BulkSizes,    \* 0 = GETNEXT fetcher, m >= 1 = GETBULK with max-repetitions m
           Faulty,          \* FALSE: every db \subseteq Cand, conformant agent; TRUE: every F over the universe
+          FaultyRange,     \* what a faulty agent may answer with (the instances, possibly also a root itself)
           ErrorModes,      \* subset of {"strict", "warn"}
           PinFirstOrder,   \* first request in the caller's order            (fixed: 2237bfc)
           PinCollapse,     \* bulk fetcher goes through the OID-keyed dict  (fixed: f0f5ba3)
@@ -23,7 +24,7 @@ vars == <<ag, roots, bulk, errors, pc, nextFetches, contFrom, yielded, nreq, out
 RootLists == { r \in UNION { [1..k -> RootCand] : k \in 1..MaxRoots } : PairwiseDisjoint(r) }
 Univ == Cand \cup RootCand
 
-Init == /\ IF Faulty THEN \E F \in [Univ -> Cand \cup {EOMVTOK}] : ag = FaultyAgent(F)
+Init == /\ IF Faulty THEN \E F \in [Univ -> FaultyRange \cup {EOMVTOK}] : ag = FaultyAgent(F)
                      ELSE \E db \in SUBSET Cand : ag = Conformant(db)
         /\ roots \in RootLists /\ bulk \in BulkSizes /\ errors \in ErrorModes
         /\ pc = "fetch" /\ nextFetches = (IF PinFirstOrder THEN roots ELSE SortOids(roots))
